@@ -66,6 +66,11 @@ def cases(tier, seed):
     for proj, shp, ph, snr, docov in itertools.product(["SIN", "ZEA"], [(1.0, 1.0), (1.2, 1.0), (1.5, 1.0)], [(0.5, 0.5), (0.5, 0.0), (0.0, 0.5), (0.25, 0.75)],
                                                      [100.0, 1000.0, 1e4], [False, True]):
         yield "D", dict(proj=proj, shape=list(shp), phase=list(ph), snr=snr, docov=docov)
+    # D with elongated beams whose minor axis is coarsely sampled and lies along a pixel axis (or nearly so); the source has
+    # the beam's orientation (a source narrower than the beam in some direction is outside the property)
+    for proj, beam, shp, ph, snr in itertools.product(["SIN", "ZEA"], [(7.5, 3.0, 0.0), (6.6, 3.0, 90.0), (6.0, 2.5, 170.0), (8.0, 2.6, 45.0)], [(1.0, 1.0), (1.3, 1.3)],
+                                                    [(0.5, 0.5), (0.5, 0.0), (0.0, 0.5), (-0.5, 0.5)], [100.0, 1e4]):
+        yield "D", dict(proj=proj, shape=list(shp), phase=list(ph), snr=snr, docov=(snr > 500), beam=list(beam))
     nreal = 8 if q else 24
     for real, mode, rmsmode, snr, s in itertools.product(range(nreal), ["white", "corr"], ["forced", "bane1", "bane2"], [50, 200], [1, 2]):
         if rmsmode != "forced" and (real % 4 != 0):
@@ -190,7 +195,7 @@ def ev_D(case, ctx):
     d = os.environ["VERIF_SCRATCH"]
     cd = 10.0 / 3600
     shape = (64, 60)
-    beam_px = (4.0, 3.0, 20.0)
+    beam_px = tuple(case.get("beam") or (4.0, 3.0, 20.0))
     beam = (beam_px[0] * cd, beam_px[1] * cd, beam_px[2])
     hdr = wz.make_header(case["proj"], (77.0, 33.0), cd, shape, beam=beam)
     src = skygauss.source_at_pixel(hdr, 31.0 + case["phase"][0], 29.0 + case["phase"][1], 1.0, case["shape"][0] * beam_px[0],
@@ -198,6 +203,8 @@ def ev_D(case, ctx):
     f = os.path.join(d, "c01d.fits")
     scenes.write_image(f, hdr, skygauss.render(hdr, shape, [src]))
     sig = "D:%s,shape=%r,phase=%r,snr=%g,docov=%s" % (case["proj"], case["shape"], case["phase"], case["snr"], case["docov"])
+    if case.get("beam"):
+        sig += ",beam=%r" % (case["beam"],)
     ctx.count("D")
     ctx.nontrivial(sig)
     try:
